@@ -14,11 +14,12 @@
 //!   --inject S:C:SCOPE:NR:K:RET[:COUNT]   when a BEGIN marker (scenario S, case C; C=* any) is seen, arm:
 //!                         in SCOPE (0 thread,1 process,2 children forked later,3 all) the K-th (0-based)
 //!                         next syscall with number NR is not executed and returns RET (i64, e.g. -12);
-//!                         COUNT consecutive matching calls (default 1)
+//!                         COUNT consecutive matching calls (default 1). NR = -1 matches every system call
+//!                         number (the marker call itself is never injected)
 //!
 //! Marker syscall (number 0x5EC0, ENOSYS without tracer; returns 0 under sysmon), arg0 = kind:
 //!   1 BEGIN(scenario, case, x, y, z)   2 END(scenario, case, x, y, z)   3 REPORT(a,b,c,d,e)
-//!   4 INJECT(scope, nr, k, ret, count) 5 SNAPFD(tag)  6 BYTES(ptr, len, tag)  7 DISARM()  8 SNAPMAPS(tag)
+//!   4 INJECT(scope, nr|-1=any, k, ret, count) 5 SNAPFD(tag)  6 BYTES(ptr, len, tag)  7 DISARM()  8 SNAPMAPS(tag)
 //!   9 SNAPTHREADS(tag)
 //!
 //! Log lines (all numbers hex without 0x except seq/pid/tid/decimal fields noted):
@@ -291,7 +292,7 @@ fn main() {
                     scenario: p[0].parse().unwrap(),
                     case: if p[1] == "*" { None } else { Some(p[1].parse().unwrap()) },
                     scope: p[2].parse().unwrap(),
-                    nr: p[3].parse().unwrap(),
+                    nr: p[3].parse::<i64>().unwrap() as u64, // -1 (u64::MAX) = any number
                     k: p[4].parse().unwrap(),
                     ret: p[5].parse().unwrap(),
                     count: p.get(6).map_or(1, |c| c.parse().unwrap()),
@@ -572,8 +573,8 @@ fn main() {
                     let born = t.born_seq;
                     let mut hit = None;
                     for (ix, j) in injects.iter_mut().enumerate() {
-                        if j.nr != nr {
-                            continue;
+                        if j.nr != u64::MAX && j.nr != nr {
+                            continue; // u64::MAX (-1) = any system call number
                         }
                         let in_sc = match j.scope {
                             0 => j.owner_tid == tid,
